@@ -37,7 +37,11 @@ SPEC = {
              "construction must raise ValidationError with the field's dotted path. Plus environment changes between "
              "constructions of one schema (set, changed, unset, emptied, made invalid, valid again; 3 scripts x depth 1-3 x "
              "4 bindings x 7 classes), every construction judged against the environment of that moment; is_value_defined "
-             "of every field after each construction and reset (C12's clause). Then seeded random cases: depth <= 6, mixed-case and odd "
+             "of every field after each construction and reset (C12's clause). Plus schemas constructed with a key= of "
+             "their own (root key 'myapp', nested Schema(key=...) renamed on attach) under every root / innermost-schema "
+             "setting: the key starts the error paths, never the names; and the sensitive= flag on every field class "
+             "(SecureField included, sensitive by default) bound six ways at depth 1-3: it plays no part in the binding. "
+             "Then seeded random cases: depth <= 6, mixed-case and odd "
              "names, empty names, random sibling schemas, random histories and boundary strings for int()/bool. "
              "non-trivial = some field of the schema is bound or the root has a setting; distinct = distinct case"),
     "trusted_base": [KERNEL, "Print Assumptions: closed under the global context (no axioms)", TIE, HARNESS,
